@@ -8,8 +8,9 @@ LEVEL = 'proof'
 def run(rep):
     control.body_deductive(rep)
     control.parse_deductive(rep, control.PARSE_BODY)
+    control.astvars_deductive(rep)
     q = rep.tier == 'quick'
-    fw.standin(rep, 'difftest.py', ['run', 'F2', rep.seed, 1500 if q else 20000, '--max-depth', 3 if q else 4],
+    fw.standin(rep, 'difftest.py', ['run', 'F2', rep.seed, 6000 if q else 40000, '--max-depth', 4],
                'translation validation: compiled clause bodies with cuts vs reference interpreter',
                'random body trees depth<=%d over call/true/fail/!/,/;/->/\\+ , leaves with 0/1/2 answers, 2 clauses, caller with 2 alternatives' % (3 if q else 4))
     if not q:
